@@ -759,3 +759,13 @@ _run_before_r05_9 = run
 def run(ctx):
     _run_before_r05_9(ctx)
     ctx.guard(r05_9)
+
+
+_run_before_r05_10 = run
+
+
+def run(ctx):
+    _run_before_r05_10(ctx)
+    # repeatability over seeded random histories (replay of the real tree)
+    from . import replay_rules
+    ctx.guard(replay_rules.r05_10)
